@@ -8,6 +8,7 @@ G  every lattice polygon (convex, concave, self-intersecting): area() = shoelace
    every probe the model proves to be in general position; is_contained_by for a triangle placed
    inside / outside / across each polygon (only pairs in general position).
 """
+import cmath
 import math
 import random
 
@@ -142,6 +143,63 @@ def arc_cases(ck):
                     (cx, cy, rx, ry, rot), sweep, got, exp, bound), case={'ellipse': [cx, cy, rx, ry, rot], 'sweep': sweep}, expected=exp, observed=repr(got), driver='arcs')
 
 
+def curved_cases(ck):
+    """enclosure and containment with curved outlines: ellipses drawn as one long arc (more than 270 degrees, both directions, rotated) closed by
+    its chord - enclosure is decided exactly by the disk and the side of the chord, and is affine-invariant; axis-aligned rectangles inside /
+    straddling / outside a circle of arcs and a Bezier outline (every crossing is between an axis-parallel line and a curve)."""
+    site = 'svgpathtools/path.py:path_encloses_pt / Path.is_contained_by'
+    for (cx, cy, rx, ry, rot) in ((0, 0, 5, 5, 0), (30, -20, 5, 5, 0), (3, 2, 6, 3, 0), (-4, 1, 4, 7, 30), (0, 0, 13, 13, 45)):
+        c = complex(cx, cy)
+        w = cmath.exp(1j * math.radians(rot))
+        at = lambda deg: c + w * complex(rx * math.cos(math.radians(deg)), ry * math.sin(math.radians(deg)))     # noqa
+        for th in (-100, -135, -170, 20, 100):
+            for dl in (-355, -300, -275, 275, 340):
+                a, b = at(th), at(th + dl)
+                p = sp.Path(sp.Arc(a, complex(rx, ry), rot, True, dl > 0, b), sp.Line(b, a))
+                far = c + 10 * max(rx, ry) * (1 + 0.3j)
+                # in the pre-image (unit circle) the chord runs between the angles th and th + dl; the region is the side of the chord holding the centre
+                u0, u1 = cmath.exp(1j * math.radians(th)), cmath.exp(1j * math.radians(th + dl))
+                side = lambda z: ((u1 - u0).real * (z - u0).imag - (u1 - u0).imag * (z - u0).real)      # noqa
+                for pa in range(0, 360, 30):
+                    for rr in (0.0, 0.5, 0.93, 1.07):
+                        z = rr * cmath.exp(1j * math.radians(pa + 7))
+                        if abs(side(z)) < 0.05 or (rr == 0.0 and pa):
+                            continue
+                        pt = c + w * complex(rx * z.real, ry * z.imag)
+                        exp = rr < 1 and (side(z) > 0) == (side(0j) > 0)
+                        ck.case(fp=('arc-enclosure', cx, cy, rx, ry, rot, th, dl, pa, rr), nontrivial=exp)
+                        try:
+                            got = sp.path_encloses_pt(pt, far, p)
+                        except Exception as e:      # noqa
+                            got = e
+                        if got is not exp:
+                            ck.disagree(key='path_encloses_pt/long-arc-and-chord', site=site,
+                                        what='ellipse (%s) drawn as one arc from %d by %d degrees + chord: path_encloses_pt(%r) = %r, exact %r' % (
+                                            (cx, cy, rx, ry, rot), th, dl, pt, got, exp), case={'ellipse': [cx, cy, rx, ry, rot], 'th': th, 'dl': dl, 'pt': str(pt)},
+                                        expected=exp, observed=repr(got), driver='curved')
+                            return
+    rect = lambda x0, x1, y0, y1, o=0j: sp.Path(sp.Line(complex(x0, y0) + o, complex(x1, y0) + o), sp.Line(complex(x1, y0) + o, complex(x1, y1) + o),      # noqa
+                                             sp.Line(complex(x1, y1) + o, complex(x0, y1) + o), sp.Line(complex(x0, y1) + o, complex(x0, y0) + o))
+    for o in (0j, 40 - 25j):
+        circle = sp.Path(sp.Arc(5 + o, 5 + 5j, 0, False, True, -5 + o), sp.Arc(-5 + o, 5 + 5j, 0, False, True, 5 + o))
+        dshape = sp.Path(sp.CubicBezier(0j + o, 6 + o, 6 + 6j + o, 6j + o), sp.Line(6j + o, 0j + o))
+        blob = sp.Path(sp.QuadraticBezier(-6 + o, 0 - 9j + o, 6 + o), sp.QuadraticBezier(6 + o, 0 + 9j + o, -6 + o))
+        for oname, outer, cases in (('circle of two arcs', circle, (((-2, 2, -1, 1), True), ((3, 7, -1, 1), False), ((6, 8, -1, 1), False), ((-3, 3, 3, 6), False))),
+                                    ('cubic D outline', dshape, (((0.5, 2, 2, 4), True), ((1, 6, 2.5, 3.5), False), ((5, 7, 2, 4), False))),
+                                    ('two-quadratic blob', blob, (((-2, 2, -1, 1), True), ((-1, 1, 2, 6), False), ((-1, 1, 5, 7), False)))):
+            for (x0, x1, y0, y1), exp in cases:
+                inner = rect(x0, x1, y0, y1, o)
+                ck.case(fp=('rect-in-curve', oname, x0, x1, y0, y1, str(o)), nontrivial=True)
+                try:
+                    got = inner.is_contained_by(outer)
+                except Exception as e:      # noqa
+                    got = e
+                if got is not exp and got != exp:
+                    ck.disagree(key='is_contained_by/axis-aligned-rectangle-vs-curve', site=site,
+                                what='rectangle x %r..%r, y %r..%r (+%r) in %s: is_contained_by = %r, exact %r' % (x0, x1, y0, y1, o, oname, got, exp),
+                                case={'outer': oname, 'rect': [x0, x1, y0, y1], 'o': str(o)}, expected=exp, observed=repr(got), driver='curved')
+
+
 def run(ck):
     quick = ck.tier == 'quick'
     ck.rules.append('polygon case = one lattice polygon of Area.tla (3..MaxV distinct grid vertices, canonical start); probe case = (polygon, half-integer '
@@ -165,6 +223,7 @@ def run(ck):
     bez_cases(ck, first['bez'])
     ck.sample('bezier', first['bez'][0])
     arc_cases(ck)
+    curved_cases(ck)
 
 
 def replay(rec):
